@@ -139,3 +139,25 @@ MUTANTS += [
     ("c19-args-tuple-not-unwrapped", "onl/utils/timer.py", "        elif not isinstance(args, (list, tuple)):", "        elif not isinstance(args, (list, tuple, str)):", []),
     ("c19-stop-does-not-pull-expiry", "onl/utils/timer.py", "        self.stopped = True\n        self.expire_time = self.env.now", "        self.stopped = self.expire_time > self.env.now", ["C19"]),
 ]
+
+MUTANTS += [
+    # ---- C16
+    ("c16-timers-only-named-segment", "onl/packet/tcp_generator.py", "if s < ackno or s == ack.packet_id]:", "if s == ack.packet_id]:", ["C16", "C17"]),
+    ("c16-resend-unknown-raises", "onl/packet/tcp_generator.py", "        if resent_pkt is None:\n", "        if resent_pkt is None and seqno < 0:\n", ["C16"]),
+    ("c16-sink-first-range-any-start", "onl/packet/tcp_sink.py", "        if self.recv_buffer[0][0] == 0:", "        if self.recv_buffer[0][0] <= 512:", ["C16"]),
+    ("c16-sink-merge-strict", "onl/packet/tcp_sink.py", "            if merge_stats and start <= merge_stats[-1][1]:", "            if merge_stats and start < merge_stats[-1][1]:", ["C16"]),
+    ("c16-rto-timer-not-restarted", "onl/packet/tcp_generator.py", "        self.rto *= 2\n        self.timers[packet_id].restart(self.rto)", "        self.rto *= 2", ["C16", "C17"]),
+    ("c16-no-wakeup-on-ack-beyond-8", "onl/packet/tcp_generator.py", "            self.cwnd_avaialbe.put(True)", "            if ackno != 8 * self.mss:\n                self.cwnd_avaialbe.put(True)", ["C16"]),
+    # ---- C17
+    ("c17-ssthresh-quarter", "onl/packet/tcp_generator.py", "        self.ssthresh = max(2 * self.mss, self.cwnd / 2)", "        self.ssthresh = max(2 * self.mss, self.cwnd / 4)", ["C17"]),
+    ("c17-fast-retransmit-on-second", "onl/packet/tcp_generator.py", "        if self.dupack == 3:\n", "        if self.dupack == 2:\n", ["C17"]),
+    ("c17-rtt-gain", "onl/packet/tcp_generator.py", "            self.rtt_estimate += 0.125 * sample_err", "            self.rtt_estimate += 0.25 * sample_err", ["C17"]),
+    ("c17-guard-loose", "onl/packet/tcp_generator.py", "            if self.next_seq + self.mss <= min(", "            if self.next_seq <= min(", ["C17"]),
+    ("c17-ca-growth", "onl/packet/tcp_generator.py", "            self.cwnd += self.mss * self.mss / self.cwnd\n", "            self.cwnd += self.mss / 2\n", ["C17"]),
+    ("c17-timeout-no-doubling", "onl/packet/tcp_generator.py", "        self.rto *= 2\n", "        self.rto *= 1\n", ["C17"]),
+    ("c17-more-dupacks-no-inflate", "onl/packet/tcp_generator.py", "        \"\"\"Actions to be taken when more than three consecutive dupacks are received.\"\"\"\n        self.cwnd += self.mss", "        \"\"\"Actions to be taken when more than three consecutive dupacks are received.\"\"\"\n        self.cwnd += 0", ["C17"]),
+    ("c17-timeout-cwnd-half", "onl/packet/tcp_generator.py", "        \"\"\"Actions to be taken when a timer expired.\"\"\"\n        self.cwnd = self.mss\n\n    def dupack_over", "        \"\"\"Actions to be taken when a timer expired.\"\"\"\n        self.cwnd = max(self.mss, self.cwnd / 2)\n\n    def dupack_over", ["C17"]),
+    ("c17-cubic-constant", "onl/packet/tcp_generator.py", "        self.C = 0.4", "        self.C = 0.8", ["C17"]),
+    ("c17-rto-4-to-2", "onl/packet/tcp_generator.py", "            self.rto = self.rtt_estimate + 4 * self.est_deviation", "            self.rto = self.rtt_estimate + 2 * self.est_deviation", ["C17"]),
+    ("c17-slow-start-lt", "onl/packet/tcp_generator.py", "class TCPReno(CongestionControl):\n    def ack_received(self, rtt: float = 0, current_time: float = 0):\n        if self.cwnd <= self.ssthresh:", "class TCPReno(CongestionControl):\n    def ack_received(self, rtt: float = 0, current_time: float = 0):\n        if self.cwnd < self.ssthresh:", ["C17"]),
+]
